@@ -86,10 +86,12 @@ def run(ctx):
         if rng.random() < 0.3:
             P = P.astype(np.float32)
         P0 = P.copy()
-        ts = [tr.AffineTransform(hom(M, b)) for M, b in mats]
+        # matrices as users register them: float, or integer-typed (the voxel -> nm registrations are int64 matrices)
+        int_mats = bool(rng.random() < 0.3)
+        ts = [tr.AffineTransform(hom(M, b).astype(np.int64) if int_mats else hom(M, b)) for M, b in mats]
         seq = tr.TransformSequence(*ts) if k > 1 or rng.random() < 0.5 else None
         st, out = guarded((seq.xform if seq is not None else ts[0].xform), P)
-        desc = dict(kind='affine-sequence', matrices=[(M.tolist(), b.tolist()) for M, b in mats], points=P0.tolist(), as_sequence=seq is not None)
+        desc = dict(kind='affine-sequence', matrices=[(M.tolist(), b.tolist()) for M, b in mats], points=P0.tolist(), as_sequence=seq is not None, integer_matrices=int_mats)
         ctx.case((str(desc['matrices']), str(desc['points'])), nontrivial=k >= 2, sample=desc if ci < 2 else None)
         ctx.count('affine-sequence')
         if st != 'ok':
@@ -151,6 +153,19 @@ def run(ctx):
                 ctx.violation('%s transform does not send every source landmark to its target landmark' % name, d, fwd if st1 != 'ok' else fwd.tolist())
             if st2 != 'ok' or np.abs(bwd - src).max() > 1e-6 * scale:
                 ctx.violation('negated %s transform does not send every target landmark back to its source landmark' % name, d, bwd if st2 != 'ok' else bwd.tolist())
+            # point arrays of other dtypes (integer voxel coordinates, float32) are moved like the same points given as float64
+            qi = rng.integers(-40, 41, size=(6, 3))
+            st9, ref = guarded(t_.xform, qi.astype(np.float64))
+            for dt_ in (np.int64, np.int32, np.float32):
+                qd = qi.astype(dt_)
+                st10, gd = guarded(t_.xform, qd)
+                ctx.count('%s:dtype' % name)
+                if st9 == 'ok' and (st10 != 'ok' or np.abs(np.asarray(gd, dtype=float) - ref).max() > 1e-9 * scale):
+                    ctx.violation('%s transform moves a point array of another dtype differently from the same points as float64' % name,
+                                  dict(d, dtype=str(np.dtype(dt_)), points=qi.tolist()), gd if st10 != 'ok' else dict(got=np.asarray(gd).tolist(), want=ref.tolist()))
+                    break
+                if not np.array_equal(qd, qi.astype(dt_)):
+                    ctx.violation('transform modified its input array', dict(d, dtype=str(np.dtype(dt_))))
             # negation is an involution on the direction: -(-T) is T again; a transform built in the inverse direction and negated is forward;
             # after T has been evaluated (cached coefficients) its negation must still be the inverse; sequences invert member-wise
             st3, ff = guarded(lambda: (-(-t_)).xform(src))
